@@ -226,6 +226,10 @@ def run(chk):
     chk.floor('R13.7', 15)
     c13_layered.functional(chk, repo, 'R13.8')
     chk.floor('R13.8', 2)
+    # ---- R13.9 host-only dissipation (the host carries the tides, the orbiting body has none), changes routed through the orbit or through the body
+    from . import c13_hostonly
+    c13_hostonly.run_hostonly(chk, repo, 'R13.9')
+    chk.floor('R13.9', 12)
     functional_api(chk, repo, d)
     plumbing(chk, repo)
     chk.floor('R13.3', 25); chk.floor('R13.5', 1); chk.floor('R13.2', 3); chk.floor('R13.4', 6); chk.floor('R13.6', 4)
